@@ -99,4 +99,67 @@ def C13(c):
                          "id<->reference bijection compared on the real pointers by the harness (flag `bij` judged by the trace spec)")
 
 
-CHECKS = {"C02": C02, "C13": C13}
+def lin_consts(n, procs, mode, relax=False, prefill=False):
+    return {"N": n, "Procs": list(range(procs)), "RelaxEmpty": relax, "Prefill": prefill, "Mode": '"%s"' % mode}
+
+
+def conform_l1(c, name, sut, scripts, n, mode, bound=2, max_runs=600, rnd_runs=300, module="Trace_LinQueue", consts=None, allow_relax=True):
+    """executions of a container under the deterministic scheduler, judged by an L1 trace spec only"""
+    scns = []
+    for si, (sname, threads) in enumerate(scripts):
+        scns.append(scn("%s_%s_dfs" % (name, sname), sut, n, threads, dfs(bound, max_runs)))
+        if rnd_runs:
+            scns.append(scn("%s_%s_rnd" % (name, sname), sut, n, threads, rnd(rnd_runs, c.seed * 1000 + si + 1)))
+    nthreads = max(len(t) for _, t in scripts)
+    consts = consts or lin_consts(n, nthreads, mode)
+    trace, runs, v = c.conform(scns, name, module, consts)
+    judge(c, scns, name, trace, runs, v, module, consts, allow_relax=allow_relax, l1_module=module, l1_consts=consts)
+    sample_run(c, trace, runs, scns, "validated execution of the real code (%s)" % sut)
+    return trace, runs, v
+
+
+def conform_free(c, name, cases, n, threads, mode, relax_ok=True):
+    consts = lin_consts(n, threads, mode)
+    trace, runs, v = c.conform(None, name, "Trace_LinQueue", consts, free_cases=cases)
+    free_scns = [{"id": x["id"], "free": x} for x in cases]
+    judge(c, free_scns, name, trace, runs, v, "Trace_LinQueue", consts, allow_relax=relax_ok, l1_module="Trace_LinQueue", l1_consts=consts)
+
+
+def C18(c):
+    quick = c.tier == "quick"
+    kf = kf_open(KF_SPURIOUS_EMPTY) is not None
+    # design level: the spin-flag stack (every interleaving of swap / plain accesses / store), and the two queues' rings
+    for script, procs in (("Script_3t", 3), ("Script_2t", 2)) + (() if quick else (("Script_4t", 4),)):
+        c.mc("MC_SpinStack", script, {"N": 2, "Procs": list(range(procs))}, subst={"Script": script},
+             invariants=["InvMutex", "InvBounds", "InvLinearizable", "InvContents"], required_actions=["MCCall", "PushHead", "PopRead", "PushUnlock", "PopUnlock"], timeout=3000, workers=10)
+    c.mc("MC_RingAtomic", "Script_2p1c", ring_consts(procs=3, origins=[0, 7], relax=kf), subst={"Script": "Script_2p1c"}, invariants=RING_INV, required_actions=["MCCall"], timeout=3000, workers=10)
+    c.mc("MC_RingFullSync", "Script_2p1c", fs_consts(procs=3, origins=[0, 7]), subst={"Script": "Script_2p1c"}, invariants=["InvBounds", "InvLinearizable", "InvContents", "InvLockOwner"], required_actions=["MCCall"], timeout=3000, workers=10)
+    # real code, deterministic scheduler
+    PU = lambda v: op("push", v)
+    PO = op("pop")
+    stack_scripts = [("3t", [[PU(11), PU(12), PO], [PU(21), PO, PU(22)], [PO, PO]]),
+                     ("4t", [[PU(11), PO], [PU(21), PU(22)], [PO, PO], [PU(41), PO]])]
+    mr, rr = (500, 250) if quick else (8000, 4000)
+    scns = []
+    for si, (sname, threads) in enumerate(stack_scripts):
+        scns.append(scn("stack_atomic_%s_dfs" % sname, "stack_atomic", 2, threads, dfs(2, mr)))
+        scns.append(scn("stack_atomic_%s_rnd" % sname, "stack_atomic", 2, threads, rnd(rr, c.seed * 1000 + si + 1)))
+    sconsts = {"N": 2, "Procs": [0, 1, 2, 3]}
+    trace, runs, v = c.conform(scns, "stack_atomic", "Trace_SpinStack", sconsts)
+    judge(c, scns, "stack_atomic", trace, runs, v, "Trace_SpinStack", sconsts, allow_relax=False, l1_module="Trace_LinQueue", l1_consts=lin_consts(2, 4, "lifo"))
+    sample_run(c, trace, runs, scns, "validated execution of the real atomic-flag stack")
+    q_scripts = [("2p2c", [[E(11), E(12)], [E(21), E(22)], [D, D], [D, D]]),
+                 ("3p1c", [[E(11), E(12)], [E(21)], [E(31)], [D, D, D]])]
+    conform_l1(c, "queue_nb_atomic", "queue_nb_atomic", q_scripts, 2, "fifo", max_runs=mr, rnd_runs=rr)
+    conform_l1(c, "queue_nb_fullsync", "queue_nb_fullsync", q_scripts, 2, "fifo", max_runs=mr, rnd_runs=rr)
+    # real code, real concurrency (all four containers; the only way to exercise the parking-lot mutex)
+    rounds, fruns = (60, 6) if quick else (400, 40)
+    for kind, mode in (("stack_atomic", "lifo"), ("stack_parking", "lifo"), ("queue_nb_atomic", "fifo"), ("queue_nb_fullsync", "fifo")):
+        cases = [{"id": "free_%s_n%d_t%d" % (kind, n, t), "sut": kind, "n": n, "threads": t, "rounds": rounds, "ops": 2, "runs": fruns, "seed": c.seed * 100 + n + t, "put_bias": 55}
+                 for (n, t) in ((2, 4), (4, 3), (8, 4))]
+        for case in cases:
+            conform_free(c, "free_%s_n%d_t%d" % (kind, case["n"], case["threads"]), [case], case["n"], case["threads"], mode)
+    c.assumptions.append("L1 oracle: LinQueue monitor in 'lifo' (stacks) / 'fifo' (queues) mode; free-running histories are ordered by a global SeqCst counter read before each call and after each return")
+
+
+CHECKS = {"C02": C02, "C13": C13, "C18": C18}
